@@ -50,6 +50,8 @@ var values = []valSpec{
 	{`{"a, bb=zz "q" x"}`, `a, bb=zz "q" x`, false, false},
 	{`"line1%0Aline2"`, "line1\nline2", false, false},
 	{`"é=日本"`, "é=日本", false, false},
+	{`"p,q"`, "p,q", false, true},
+	{`"x=y;z"`, "x=y;z", false, true},
 }
 
 var nameGroups = [][]string{
@@ -58,7 +60,7 @@ var nameGroups = [][]string{
 	{"Foo-Baz", "foo-baz", "FOO-BAZ", "fOO-bAZ"}, // shares the prefix "Foo" with group 0 (wildcard, prefix bugs)
 }
 var cookieGroup = []string{"Cookie", "cookie", "COOKIE", "cOOkie"}
-var keys = []string{"aa", "bb", "cc"}
+var keys = []string{"aa", "aab", "bb"} // one key is a proper prefix of another
 
 var targets = []struct{ obj, scope string }{
 	{"req", "RECV"}, {"req", "HASH"}, {"req", "HIT"}, {"req", "MISS"}, {"req", "PASS"}, {"req", "FETCH"}, {"req", "ERROR"}, {"req", "DELIVER"}, {"req", "LOG"},
@@ -143,11 +145,12 @@ func randSeq(r *rand.Rand, obj, scope string) seq {
 	s := seq{Obj: obj, Scope: scope}
 	n := 2 + r.Intn(7)
 	groups := nameGroups
-	if obj == "req" && r.Intn(4) == 0 {
-		groups = append(append([][]string{}, nameGroups...), cookieGroup)
-	}
 	// concentrate on one or two names so that operations collide
 	focus := groups[r.Intn(len(groups))]
+	if (obj == "req" || obj == "bereq") && r.Intn(4) == 0 {
+		groups = append(append([][]string{}, nameGroups...), cookieGroup)
+		focus = cookieGroup
+	}
 	for i := 0; i < n; i++ {
 		grp := focus
 		if r.Intn(4) == 0 {
@@ -419,7 +422,8 @@ func checkSeq(oc *fw.Outcome, s seq) {
 			}
 		case "setf":
 			f := cur.Vals[hname(s.Obj, canon(grp), o.Key)]
-			if !v.notset && v.val != "" && !strings.Contains(v.val, "\n") && !dirty(s, o) {
+			// a cookie value cannot carry separators, quotes or blanks at all
+			if !v.notset && v.val != "" && !strings.Contains(v.val, "\n") && !dirty(s, o) && !(isCookie && strings.ContainsAny(v.val, "; ,\"\\=")) {
 				if f.NotSet || f.Str != trunc(v.val) {
 					viol("field-read-after-set", fmt.Sprintf("sub-field %s reads %s, expected %q", o.Key, f, trunc(v.val)))
 				}
